@@ -20,12 +20,19 @@
      - theorem B, part 3a: the step list is one well-bracketed tree rooted at SOURCE_FILE whose
        Token steps carry exactly the input tokens (by counting completed Start slots against
        Finish events; forward parents only move Enters earlier).
-   NOT proved (theorem B, part 3b): the totality of the trivia builder / tree builder /
-   validation on the parser's steps.  These are covered by the bounded-exhaustive
-   correspondence and the no-panic oracle on the implementation only. *)
+     - theorem B, part 3b: on such a step list the trivia builder never fails its range
+       assertion or its state assertions and the tree builder returns exactly one tree, rooted
+       at SOURCE_FILE.
+     Together, for every text: both entry points of the model (SourceFile::parse and
+     SourceFile::parse_check_lex) return without hanging and without a panic in the lexer, the
+     parser, event processing, the trivia builder or the tree builder.
+   NOT proved: that the validation pass (validation.rs: Literal::token / TimingLiteral::
+   identifier unwraps on the finished tree) never panics; this needs tree-shape facts about
+   LITERAL and TIMING_LITERAL nodes and is covered by the bounded-exhaustive correspondence
+   and the no-panic oracle on the implementation only. *)
 From Coq Require Import NArith Arith List Bool.
-From OQ3 Require Import gen.Kinds Model.Lexer Model.Lexed Model.Parser Model.Grammar
-                        Proofs.LexerP Proofs.WP Proofs.GrammarA Proofs.MarkerB Proofs.GrammarB5 Proofs.ProcessB Proofs.PipelineP.
+From OQ3 Require Import gen.Kinds Model.Lexer Model.Lexed Model.Parser Model.Grammar Model.Builder
+                        Proofs.LexerP Proofs.WP Proofs.GrammarA Proofs.MarkerB Proofs.GrammarB5 Proofs.ProcessB Proofs.PipelineP Proofs.PipelineB.
 Import ListNotations.
 
 Theorem C01_lexer_total : forall l, tokenize_fuel (S (length l)) l = Some (tokenize l).
@@ -91,6 +98,24 @@ Theorem C01_parser_output_is_one_tree : forall inp,
   exists st, run_parser inp = Steps st /\ TreeSteps (ntoks inp) st.
 Proof. exact run_parser_tree. Qed.
 
+(* every text, both entry points: no hang; a panic can only come from the validation pass *)
+Theorem C01_parse_total : forall l,
+  match parse_source l with
+  | POk r => tree_kind (pr_tree r) = K_SOURCE_FILE
+  | PPanic stage _ => stage = 4%N
+  | PNoTree _ => False
+  | PHang => False
+  end.
+Proof. exact parse_source_total. Qed.
+Theorem C01_parse_check_lex_total : forall l,
+  match parse_check_lex l with
+  | POk r => tree_kind (pr_tree r) = K_SOURCE_FILE
+  | PPanic stage _ => stage = 4%N
+  | PNoTree _ => True
+  | PHang => False
+  end.
+Proof. exact parse_check_lex_total. Qed.
+
 (* theorem A for every text *)
 Theorem C01_text_total_A : forall l,
   match run_parser (to_input (lexed_of l)) with
@@ -117,3 +142,5 @@ Print Assumptions C01_process_total.
 Print Assumptions C01_parser_total_AB.
 Print Assumptions C01_text_parser_total_AB.
 Print Assumptions C01_parser_output_is_one_tree.
+Print Assumptions C01_parse_total.
+Print Assumptions C01_parse_check_lex_total.
